@@ -10,14 +10,22 @@ package harness
 //                   starts from another process history than A and than the children; thorough adds C after a longer one
 //   childA, childB  two fresh OS processes: this test binary re-executed with VERIF_C16_CHILD=<seed>:<blocks>:<tier>
 //                   (childA with GOMAXPROCS=1, childB with the default and GOGC=20, so that scheduler and GC differ)
+//   childF          a third OS process whose WALL CLOCK is shifted by +137 d 5 h 17 min (c16_clock_test.go) and whose
+//                   time zone is UTC+14 (TZ=Pacific/Kiritimati): what a node sees that syncs / replays the chain later
+//   B additionally sleeps a few hundred milliseconds before the chain-halt blocks and some others (wall-clock jitter
+//   between validators). The workload contains CHAIN HALTS (header-time gaps of several days, > 2 epoch durations, with
+//   12 h and 24 h epochs in the store), which send the x/rewards BeginBlocker through its halt-recovery branch.
 // Blocks go through the real ABCI surface: BeginBlock (all module BeginBlockers), signed transactions through
 // DeliverTx (ante handler, message router, atomic commit of a successful tx), EndBlock, Commit. Governance-only
 // configuration (asset / app / pair records, lend pools, white-lists) and oracle prices are written with the keepers'
 // own Add…/Wasm…/SetTwa entry points inside a block — they are part of the replayed block content on every instance.
 // After every Commit: an ordered dump of EVERY IAVL store of the multistore (all module KV stores, bank balances
-// included), all bank balances again through the bank keeper, the IAVL app hash and the block's transaction results
-// (code, codespace, data, gas wanted/used, events of every DeliverTx) and validator updates are hashed. Trace line per block:  det.block  height  ok|empty  txOk txFail  hashA hashB hashChildA hashChildB [hashC]
-// Monitor `replay_equal` (Lean driver): the four hashes are equal.
+// included), all bank balances again through the bank keeper, the IAVL app hash and validator updates are hashed
+// (STATE hash); separately the block's transaction RESULTS (code, codespace, data, gas wanted/used, every event with its
+// attributes in the order emitted, of every DeliverTx) are hashed. Trace lines per block:
+//   det.block    height  ok|empty  txOk txFail  hashA hashB hashChildA hashChildB hashChildF [hashC]
+//   det.results  height  nTx  resA resB resChildA resChildB resChildF [resC]
+// Monitors (Lean driver): `replay_equal` — all state hashes equal; `results_equal` — all result hashes equal.
 //
 // In addition the four map-iteration sites are hammered directly: each real function is run many times on identical
 // inputs in one process (Go re-randomizes the order for every `range`), the results are hashed: `det.site name runs
@@ -97,6 +105,9 @@ type c16Inst struct {
 	txFail  int
 	stats   map[string]int
 	lastDump map[string]string // store name -> hash (for diagnostics)
+	resHash  string            // hash of the block's transaction results
+	jitter   *Rng              // != nil: sleep before selected blocks (wall-clock jitter between replicas)
+	slept    time.Duration
 }
 
 func c16Priv(i int) *secp256k1.PrivKey {
@@ -202,12 +213,15 @@ func (in *c16Inst) begin(dt int64) {
 	}
 	in.txRes = nil
 	in.txOk, in.txFail = 0, 0
-	in.app.BeginBlock(abci.RequestBeginBlock{
+	bb := in.app.BeginBlock(abci.RequestBeginBlock{
 		Header: in.header,
 		// no votes: the genesis validator is written by the staking genesis directly (no gentx), so it has no
 		// slashing signing-info; the repository's own test chain does the same
 		LastCommitInfo: abci.CommitInfo{},
 	})
+	for _, e := range bb.Events {
+		in.stats["beginblock-event:"+e.Type]++
+	}
 	in.ctx = in.app.BaseApp.NewContext(false, in.header)
 }
 
@@ -231,7 +245,13 @@ func (in *c16Inst) tx(who int, kind string, msgs ...sdk.Msg) bool {
 	if r.Code == 0 {
 		in.txOk++
 		in.stats["tx:"+kind+":ok"]++
+		for _, m := range msgs {
+			in.stats["msg-ok:"+sdk.MsgTypeURL(m)]++
+		}
 		return true
+	}
+	for _, m := range msgs {
+		in.stats["msg-fail:"+sdk.MsgTypeURL(m)]++
 	}
 	in.txFail++
 	in.stats["tx:"+kind+":fail"]++
@@ -244,6 +264,9 @@ func (in *c16Inst) tx(who int, kind string, msgs ...sdk.Msg) bool {
 // end closes the block, commits and returns the block hash (see file comment).
 func (in *c16Inst) end() string {
 	eb := in.app.EndBlock(abci.RequestEndBlock{Height: in.height})
+	for _, e := range eb.Events {
+		in.stats["endblock-event:"+e.Type]++
+	}
 	in.app.Commit()
 	h := sha256.New()
 	wr := func(b []byte) {
@@ -303,20 +326,22 @@ func (in *c16Inst) end() string {
 	// 3. app hash
 	wr(in.app.LastCommitID().Hash)
 	in.lastDump["~apphash"] = hex.EncodeToString(in.app.LastCommitID().Hash[:8])
-	// 4. transaction results and EndBlock results
+	// 4. EndBlock: validator updates are consensus data; EndBlock/BeginBlock *events* are not transaction results and are
+	// not part of any hash the chain agrees on — the property does not speak about them
+	vh := sha256.New()
+	for _, vu := range eb.ValidatorUpdates {
+		fmt.Fprintf(vh, "vu|%s|%d|", vu.PubKey.String(), vu.Power)
+	}
+	wr(vh.Sum(nil))
+	// 5. separately: the transaction results (code, codespace, data, gas, events with their attributes in emitted order)
 	rh := sha256.New()
 	for _, r := range in.txRes {
 		fmt.Fprintf(rh, "%d|%s|%x|%d|%d|", r.Code, r.Codespace, r.Data, r.GasWanted, r.GasUsed)
 		c16HashEvents(rh, r.Events)
 	}
-	// EndBlock: validator updates and consensus-param updates are consensus data; EndBlock/BeginBlock *events* are not
-	// transaction results and are not part of any hash the chain agrees on — the property does not speak about them
-	for _, vu := range eb.ValidatorUpdates {
-		fmt.Fprintf(rh, "vu|%s|%d|", vu.PubKey.String(), vu.Power)
-	}
 	rsum := rh.Sum(nil)
 	in.lastDump["~results"] = hex.EncodeToString(rsum[:8])
-	wr(rsum)
+	in.resHash = hex.EncodeToString(rsum[:16])
 	return hex.EncodeToString(h.Sum(nil)[:16])
 }
 
@@ -346,30 +371,67 @@ func c16DumpString(m map[string]string) string {
 	return b.String()
 }
 
+// c16DumpDiff: the entries (store=hash/count) of dump b that differ from dump a
+func c16DumpDiff(a, b string) string {
+	in := map[string]bool{}
+	for _, f := range strings.Fields(a) {
+		in[f] = true
+	}
+	var out []string
+	for _, f := range strings.Fields(b) {
+		if !in[f] {
+			out = append(out, f)
+		}
+	}
+	if len(out) == 0 {
+		return "-"
+	}
+	return strings.Join(out, " ")
+}
+
 type c16BlockRec struct {
 	Height       int64
 	Hash         string
 	TxOk, TxFail int
 	Dump         string
+	ResHash      string
+}
+
+// c16Opts: how a replica differs from the others in everything that must NOT matter.
+type c16Opts struct {
+	variant int  // 0 = the replayed workload; 1 = warm-up (see c16Warmup)
+	jitter  bool // sleep 50-400 ms of wall-clock time before every chain-halt block and before every 9th block
 }
 
 // c16Run executes the workload for `seed` on a fresh instance and returns one record per block.
 func c16Run(t testing.TB, seed uint64, blocks int, thor bool) ([]c16BlockRec, map[string]int) {
-	return c16RunVariant(t, seed, blocks, thor, 0)
+	return c16RunVariant(t, seed, blocks, thor, c16Opts{})
 }
 
-func c16RunVariant(t testing.TB, seed uint64, blocks int, thor bool, variant int) ([]c16BlockRec, map[string]int) {
+func c16RunVariant(t testing.TB, seed uint64, blocks int, thor bool, o c16Opts) ([]c16BlockRec, map[string]int) {
 	in := c16NewInst(t)
 	defer in.close()
 	w := c16NewWorkload(in, seed, thor)
-	w.variant = variant
+	w.variant = o.variant
+	if o.variant == 0 {
+		w.total = blocks
+	}
+	if o.jitter {
+		in.jitter = NewRng(seed ^ 0x5eed)
+	}
 	var out []c16BlockRec
 	for b := 0; b < blocks; b++ {
 		dt := w.blockGap(b)
+		if in.jitter != nil && (w.isHalt(b) || b%9 == 4) && in.slept < 3*time.Second {
+			d := time.Duration(50+in.jitter.Intn(350)) * time.Millisecond
+			time.Sleep(d)
+			in.slept += d
+		}
 		in.begin(dt)
 		w.block(b)
 		hash := in.end()
-		out = append(out, c16BlockRec{in.height, hash, in.txOk, in.txFail, c16DumpString(in.lastDump)})
+		w.probe(b)
+		out = append(out, c16BlockRec{in.height, hash, in.txOk, in.txFail, c16DumpString(in.lastDump), in.resHash})
 	}
 	return out, in.stats
 }
@@ -379,7 +441,7 @@ func c16RunVariant(t testing.TB, seed uint64, blocks int, thor bool, variant int
 // ones of the next replay in all but one argument. Anything that survives an application instance (package-level
 // memo, cache, counter) is in a different state afterwards than in a fresh process.
 func c16Warmup(t testing.TB, seed uint64) {
-	c16RunVariant(t, seed, 3, false, 1)
+	c16RunVariant(t, seed, 3, false, c16Opts{variant: 1})
 }
 
 func c16Child(t *testing.T, spec string) {
@@ -389,15 +451,40 @@ func c16Child(t *testing.T, spec string) {
 	}
 	seed, _ := strconv.ParseUint(parts[0], 10, 64)
 	blocks, _ := strconv.Atoi(parts[1])
+	shifted := false
+	if off := os.Getenv("VERIF_C16_CLOCK_OFFSET"); off != "" {
+		d, err := time.ParseDuration(off)
+		if err != nil {
+			t.Fatalf("bad VERIF_C16_CLOCK_OFFSET %q", off)
+		}
+		shifted = c16ShiftClock(d)
+	}
+	// what this process sees as "now" and as its local time zone (the parent checks that the shift took effect)
+	nowSeen := time.Now()
+	_, zoneOff := nowSeen.Zone()
+	sinceSeen := time.Since(time.Unix(c16GenesisTS, 0))
 	recs, _ := c16Run(t, seed, blocks, parts[2] == "thorough")
 	w := bufio.NewWriter(os.Stdout)
+	fmt.Fprintf(w, "C16CLOCK\t%d\t%d\t%d\t%v\n", nowSeen.Unix(), int64(sinceSeen/time.Second), zoneOff, shifted)
 	for _, r := range recs {
-		fmt.Fprintf(w, "C16HASH\t%d\t%s\t%d\t%d\t%s\n", r.Height, r.Hash, r.TxOk, r.TxFail, r.Dump)
+		fmt.Fprintf(w, "C16HASH\t%d\t%s\t%d\t%d\t%s\t%s\n", r.Height, r.Hash, r.TxOk, r.TxFail, r.Dump, r.ResHash)
 	}
 	w.Flush()
 }
 
+// c16ChildClock: what a child reported about its clock
+type c16ChildClock struct {
+	now, since, zone int64
+	shifted          bool
+}
+
 func c16Spawn(t *testing.T, seed uint64, blocks int, thor bool, extraEnv ...string) ([]c16BlockRec, error) {
+	r, _, err := c16SpawnClock(t, seed, blocks, thor, extraEnv...)
+	return r, err
+}
+
+func c16SpawnClock(t *testing.T, seed uint64, blocks int, thor bool, extraEnv ...string) ([]c16BlockRec, c16ChildClock, error) {
+	var clk c16ChildClock
 	tier := "quick"
 	if thor {
 		tier = "thorough"
@@ -409,20 +496,26 @@ func c16Spawn(t *testing.T, seed uint64, blocks int, thor bool, extraEnv ...stri
 	cmd.Stdout = &stdout
 	cmd.Stderr = &stderr
 	if err := cmd.Run(); err != nil {
-		return nil, fmt.Errorf("child: %v: %s %s", err, c16Tail(stdout.String()), c16Tail(stderr.String()))
+		return nil, clk, fmt.Errorf("child: %v: %s %s", err, c16Tail(stdout.String()), c16Tail(stderr.String()))
 	}
 	var recs []c16BlockRec
 	for _, line := range strings.Split(stdout.String(), "\n") {
 		f := strings.Split(line, "\t")
-		if len(f) < 6 || f[0] != "C16HASH" {
+		if len(f) == 5 && f[0] == "C16CLOCK" {
+			clk.now, _ = strconv.ParseInt(f[1], 10, 64)
+			clk.since, _ = strconv.ParseInt(f[2], 10, 64)
+			clk.zone, _ = strconv.ParseInt(f[3], 10, 64)
+			clk.shifted = f[4] == "true"
+		}
+		if len(f) < 7 || f[0] != "C16HASH" {
 			continue
 		}
 		h, _ := strconv.ParseInt(f[1], 10, 64)
 		ok, _ := strconv.Atoi(f[3])
 		fail, _ := strconv.Atoi(f[4])
-		recs = append(recs, c16BlockRec{h, f[2], ok, fail, f[5]})
+		recs = append(recs, c16BlockRec{h, f[2], ok, fail, f[5], f[6]})
 	}
-	return recs, nil
+	return recs, clk, nil
 }
 
 func c16Tail(s string) string {
@@ -449,22 +542,31 @@ func TestC16(t *testing.T) {
 	if v := envInt("VERIF_C16_BLOCKS", 0); v > 0 {
 		blocks = v
 	}
+	const clockOffset = 137*24*time.Hour + 5*time.Hour + 17*time.Minute
 	for s := 0; s < nSeeds; s++ {
 		sd := seed()*1000 + uint64(s)
 		tr.Count("seeds")
 		type res struct {
 			recs []c16BlockRec
+			clk  c16ChildClock
 			err  error
 		}
 		chA := make(chan res, 1)
 		chB := make(chan res, 1)
-		// the two children run while the in-process instances run (they are separate OS processes)
-		go func() { r, e := c16Spawn(t, sd, blocks, thor, "GOMAXPROCS=1"); chA <- res{r, e} }()
-		go func() { r, e := c16Spawn(t, sd, blocks, thor, "GOGC=20"); chB <- res{r, e} }()
+		chF := make(chan res, 1)
+		// the children run while the in-process instances run (they are separate OS processes)
+		go func() { r, e := c16Spawn(t, sd, blocks, thor, "GOMAXPROCS=1"); chA <- res{r, c16ChildClock{}, e} }()
+		go func() { r, e := c16Spawn(t, sd, blocks, thor, "GOGC=20"); chB <- res{r, c16ChildClock{}, e} }()
+		go func() {
+			r, c, e := c16SpawnClock(t, sd, blocks, thor, "VERIF_C16_CLOCK_OFFSET="+clockOffset.String(), "TZ=Pacific/Kiritimati")
+			chF <- res{r, c, e}
+		}()
+		parentNow := time.Now()
 		recA, stats := c16Run(t, sd, blocks, thor)
-		// instance B replays the same blocks in the same process AFTER instance A and after a different warm-up workload
+		// instance B replays the same blocks in the same process AFTER instance A and after a different warm-up workload,
+		// with wall-clock jitter before the chain-halt blocks
 		c16Warmup(t, sd)
-		recB, _ := c16Run(t, sd, blocks, thor)
+		recB, _ := c16RunVariant(t, sd, blocks, thor, c16Opts{jitter: true})
 		// thorough, first seed: a third replay after a longer, unrelated history (another seed's workload)
 		var recC []c16BlockRec
 		if thor && s == 0 {
@@ -472,12 +574,31 @@ func TestC16(t *testing.T) {
 			c16Warmup(t, sd+1)
 			recC, _ = c16Run(t, sd, blocks, thor)
 		}
-		ra, rb := <-chA, <-chB
-		if ra.err != nil || rb.err != nil {
-			t.Fatalf("c16 child failed: %v %v", ra.err, rb.err)
+		ra, rb, rf := <-chA, <-chB, <-chF
+		if ra.err != nil || rb.err != nil || rf.err != nil {
+			t.Fatalf("c16 child failed: %v %v %v", ra.err, rb.err, rf.err)
+		}
+		// control: the shifted-clock child really saw another wall clock (time.Now AND time.Since) and another time zone
+		{
+			distinct := 1
+			dNow := time.Duration(rf.clk.now-parentNow.Unix()) * time.Second
+			dSince := time.Duration(rf.clk.since)*time.Second - parentNow.Sub(time.Unix(c16GenesisTS, 0))
+			if rf.clk.shifted && dNow > clockOffset-time.Hour && dSince > clockOffset-time.Hour {
+				distinct = 2
+			}
+			tr.Line("det.sanity", "shifted-clock", "ok", "2", strconv.Itoa(distinct))
+			tr.Set(fmt.Sprintf("shifted-clock-seed-%d", sd), map[string]string{"now-shift": dNow.String(), "since-shift": dSince.String(),
+				"zone-offset-seconds": i64(rf.clk.zone), "patched": fmt.Sprint(rf.clk.shifted)})
 		}
 		for k, v := range stats {
 			tr.Stats[k] += v
+		}
+		if s == nSeeds-1 {
+			never, neverOK := c16MissingMsgTypes(tr.Stats)
+			tr.Set("msg-types-never-delivered", never)
+			tr.Set("msg-types-never-succeeded", neverOK)
+			tr.Stats["msg-types-never-delivered"] = len(never)
+			tr.Stats["msg-types-never-succeeded"] = len(neverOK)
 		}
 		firstDiff := true
 		for i := range recA {
@@ -485,26 +606,36 @@ func TestC16(t *testing.T) {
 				if i < len(r) {
 					return r[i]
 				}
-				return c16BlockRec{Hash: "missing"}
+				return c16BlockRec{Hash: "missing", ResHash: "missing"}
 			}
-			b, ca, cb := get(recB), get(ra.recs), get(rb.recs)
+			reps := []c16BlockRec{recA[i], get(recB), get(ra.recs), get(rb.recs), get(rf.recs)}
+			if recC != nil {
+				reps = append(reps, get(recC))
+			}
 			outcome := "empty"
 			if recA[i].TxOk > 0 {
 				outcome = "ok"
 			}
-			fields := []string{i64(recA[i].Height), outcome, strconv.Itoa(recA[i].TxOk), strconv.Itoa(recA[i].TxFail), recA[i].Hash, b.Hash, ca.Hash, cb.Hash}
-			cOK := true
-			if recC != nil {
-				fields = append(fields, get(recC).Hash)
-				cOK = get(recC).Hash == recA[i].Hash
+			fields := []string{i64(recA[i].Height), outcome, strconv.Itoa(recA[i].TxOk), strconv.Itoa(recA[i].TxFail)}
+			rfields := []string{i64(recA[i].Height), strconv.Itoa(recA[i].TxOk + recA[i].TxFail)}
+			same := true
+			for _, r := range reps {
+				fields = append(fields, r.Hash)
+				rfields = append(rfields, r.ResHash)
+				same = same && r.Hash == recA[i].Hash && r.ResHash == recA[i].ResHash
 			}
 			tr.Line("det.block", fields...)
+			tr.Line("det.results", rfields...)
 			tr.Count("blocks")
-			if firstDiff && !(recA[i].Hash == b.Hash && b.Hash == ca.Hash && ca.Hash == cb.Hash && cOK) {
+			if firstDiff && !same {
 				firstDiff = false
 				tr.Count("diverging-seeds")
-				tr.Set(fmt.Sprintf("first-divergence-seed-%d", sd), map[string]string{
-					"height": i64(recA[i].Height), "A": recA[i].Dump, "B(after warm-up)": b.Dump, "childA": ca.Dump, "childB": cb.Dump, "C": get(recC).Dump})
+				names := []string{"A", "B(after warm-up, jitter)", "childA(GOMAXPROCS=1)", "childB(GOGC=20)", "childF(shifted clock, UTC+14)", "C(after long history)"}
+				d := map[string]string{"height": i64(recA[i].Height), "block-index": strconv.Itoa(i), "A": recA[i].Dump}
+				for k := 1; k < len(reps); k++ {
+					d[names[k]+" differs from A in"] = c16DumpDiff(recA[i].Dump, reps[k].Dump)
+				}
+				tr.Set(fmt.Sprintf("first-divergence-seed-%d", sd), d)
 			}
 		}
 	}
